@@ -58,11 +58,33 @@ def opt(t):
     return T("union", t, T("none"))
 
 
+_TVARS = {}
+
+
+def _tvar(term, form):
+    """ONE TypeVar object per term (TypeVars compare by identity)."""
+    key = json.dumps(term, sort_keys=True)
+    if key not in _TVARS:
+        name = "T%d" % len(_TVARS)
+        if term["k"] == "tvar":
+            tv = typing.TypeVar(name)
+        elif term["k"] == "tvarb":
+            tv = typing.TypeVar(name, bound=to_py(term["args"][0], form))
+        else:
+            tv = typing.TypeVar(name, *[to_py(a, form) for a in term["args"]])
+        _TVARS[key] = tv
+    return _TVARS[key]
+
+
 def to_py(term, form="U"):
     """Term -> real typing object.  form: "U" builds unions with typing.Union, "B" with the | operator."""
     k, args = term["k"], term["args"]
     if k in PLAIN:
         return PLAIN[k]
+    if k == "ann":
+        return typing.Annotated[to_py(args[0], form), "meta"]
+    if k in ("tvar", "tvarb", "tvarc"):
+        return _tvar(term, "U")
     if k == "any":
         return typing.Any
     if k in GENERIC:
@@ -81,6 +103,12 @@ def to_term(obj):
     """Real typing object -> term as Python itself sees it (unions flattened / de-duplicated)."""
     if obj is typing.Any:
         return T("any")
+    if isinstance(obj, typing.TypeVar):
+        if obj.__constraints__:
+            return T("tvarc", *[to_term(c) for c in obj.__constraints__])
+        return T("tvarb", to_term(obj.__bound__)) if obj.__bound__ is not None else T("tvar")
+    if typing.get_origin(obj) is typing.Annotated:
+        return T("ann", to_term(typing.get_args(obj)[0]))
     if obj in _PLAIN_BACK:
         return T(_PLAIN_BACK[obj])
     if obj in _GEN_BACK:
@@ -94,6 +122,8 @@ def to_term(obj):
 
 
 def term_text(t):
+    if t["k"] == "ann":
+        return "Annotated[" + term_text(t["args"][0]) + ", 'meta']"
     if t["k"] == "union":
         return " | ".join(term_text(a) for a in t["args"])
     if t["args"]:
@@ -115,6 +145,7 @@ def _layer(args1, args2, unions=True):
     for a in args1:
         out.append(T("seq", a))
         out.append(T("iter", a))
+        out.append(T("ann", a))
     for a in args1:
         for b in args2:
             out.append(T("dict", a, b))
@@ -134,7 +165,10 @@ def type_universe(tier, seed):
     rng = random.Random(seed)
     base = [T(k) for k in ("int", "bool", "str", "A", "B", "any")]
     cap2 = 520 if tier == "thorough" else 90
-    bare = [T("list"), T("dict"), T("tuple"), T("seq"), T("iter"), T("mapping")]
+    bare = [T("list"), T("dict"), T("tuple"), T("seq"), T("iter"), T("mapping"),
+            # TypeVars: unconstrained, bounded, constrained
+            T("tvar"), T("tvarb", T("int")), T("tvarb", T("A")), T("tvarb", T("list", T("int"))),
+            T("tvarc", T("int"), T("str")), T("tvarc", T("B"), T("list"))]
     d0 = base + [T("none")]
     d1 = _layer(base, base) + bare
     d1 = _dedup(d0 + d1)
@@ -143,6 +177,7 @@ def type_universe(tier, seed):
     for a in deep_args:
         un.append(T("list", a))
         un.append(opt(a))
+        un.append(T("ann", a))
     bi = []
     for a in deep_args:
         for b in base:
